@@ -360,7 +360,12 @@ func (k *knownFinding) matches(prop string, v *Violation) bool {
 		return false
 	}
 	if k.Site != "" {
-		hay := v.Site + " " + strings.Join(v.Stack, " ") + " " + v.Msg + " " + v.Model["note"]
+		hay := v.Site + " " + strings.Join(v.Stack, " ") + " " + v.Msg
+		for mk, mv := range v.Model {
+			if strings.HasPrefix(mk, "note:") {
+				hay += " " + mk + ":" + mv
+			}
+		}
 		for _, part := range strings.Split(k.Site, " && ") {
 			if !strings.Contains(hay, part) {
 				return false
